@@ -72,7 +72,7 @@ def do_check(tier, seed, t0):
     layers = {}
 
     # ---- layer A1: native session simulator
-    n = 96 if tier == "quick" else 6000
+    n = 120 if tier == "quick" else 6000
     a = drive(seed, n, 0, 1 if tier == "quick" else 8, "a1")
     if a["error_count"]:
         raise Harness("sessim harness errors: %s" % a["errors"])
@@ -92,7 +92,15 @@ def do_check(tier, seed, t0):
             continue
         viol_lines.append("VIOLATION property=C19 replay=%s" % v["replay"])
         log("  %s: %s" % (v["replay"], v["what"]))
-    if a["violations"] and not viol_lines:
+    # racy findings: the same plan answered differently in two fresh processes
+    for v in a.get("racy_findings", []):
+        rc, out = sh([BIN, "replay", v["replay"], "--shim", SHIM, "--tmp-root", os.path.join(BUILD, "sessim-tmp")])
+        if rc == 1:
+            viol_lines.append("VIOLATION property=C19 replay=%s" % v["replay"])
+            log("  %s: identical plans answer differently (the code under simulation is nondeterministic by itself)" % v["replay"])
+        else:
+            unreproduced.append((v["replay"], rc, out[-800:]))
+    if (a["violations"] or a.get("racy_findings")) and not viol_lines:
         # every minimised divergence must replay; if none does, the simulator (not the repo) is at fault
         raise Harness("no divergence reproduced on replay: %s" % unreproduced)
     layers["A1_native_session"] = {k: a[k] for k in a if k not in ("samples", "violations", "errors", "_rc")}
